@@ -805,6 +805,10 @@ impl Shard {
         format!("{}/hangs", self.ctx.root)
     }
     fn run(&self, cfg: &Config, faults: &[Fault]) -> Result<Value, String> {
+        self.run_p(|| exec_case(&self.ctx, &self.sdir, self.shm, self.pgid, cfg, faults))
+    }
+    /// Run `body` (which ends with `finish`) in a fresh process P and collect its observation.
+    fn run_p(&self, body: impl FnOnce()) -> Result<Value, String> {
         if std::fs::metadata(self.hangs_file()).map(|m| m.len()).unwrap_or(0) >= MAX_HANGS {
             return Err("skipped".into());
         }
@@ -812,7 +816,8 @@ impl Shard {
         unsafe {
             let pid = libc::fork();
             if pid == 0 {
-                exec_case(&self.ctx, &self.sdir, self.shm, self.pgid, cfg, faults);
+                body();
+                libc::_exit(3);
             }
             if pid < 0 {
                 return Err("machinery: fork of P failed".into());
@@ -1521,7 +1526,436 @@ fn c13(args: &Args) -> Report {
     r
 }
 
+// ---------------------------------------------------------------------------
+// phase `waitseq`: "... and wait reports its exit status" over call sequences
+//
+// A child whose lifetime the harness controls: the dump program with stdin = MakePipe reads stdin
+// to EOF before it ends, and the harness takes the parent's end out of `Child.stdin` and holds it
+// (so that `Child::wait`, which drops `Child.stdin`, cannot release the child by itself).  Letters:
+// TW = child.try_wait(), W = child.wait(), X = release.  Release mode "X": close the pipe end, then
+// waitid(WEXITED|WNOWAIT) until the child HAS terminated and is still reapable ("exited" is a
+// fact).  Release mode "R": close the pipe end only; the program lingers LINGER_MS after EOF, so a
+// W that follows must block, and a W that returns at once is caught with the child still running.
+
+const LINGER_MS: i32 = 60;
+
+#[derive(Clone, Debug)]
+struct WsCase {
+    seq: Vec<String>,
+    /// "exit7" | "exit0" | "kill9"
+    status: String,
+    /// "X" | "R"
+    mode: String,
+    /// the k-th wait4 call (over the whole sequence) answers EINTR
+    fault_k: Option<usize>,
+}
+impl WsCase {
+    fn to_json(&self) -> Value {
+        json!({"op": "waitseq", "variant": if WITH_START { "start" } else { "nostart" }, "seq": self.seq, "status": self.status, "mode": self.mode, "fault_k": self.fault_k})
+    }
+    fn from_json(v: &Value) -> WsCase {
+        WsCase {
+            seq: v["seq"].as_array().map(|a| a.iter().filter_map(|s| s.as_str().map(String::from)).collect()).unwrap_or_default(),
+            status: v["status"].as_str().unwrap_or("exit7").into(),
+            mode: v["mode"].as_str().unwrap_or("X").into(),
+            fault_k: v["fault_k"].as_u64().map(|k| k as usize),
+        }
+    }
+    /// values the API may report for the child's end: the raw wait status, or the exit-code convention
+    fn accepted(&self) -> Vec<i64> {
+        match self.status.as_str() {
+            "exit7" => vec![7 << 8, 7],
+            "exit0" => vec![0],
+            _ => vec![libc::SIGKILL as i64, 128 + libc::SIGKILL as i64],
+        }
+    }
+}
+
+struct WaitPlan {
+    fault_k: Option<usize>,
+    seen: usize,
+    hit: bool,
+}
+impl sysx::Plan for WaitPlan {
+    fn decide(&mut self, _idx: usize, nr: i64, _args: &[u64; 6]) -> sysx::Decision {
+        if nr == libc::SYS_wait4 {
+            let me = self.seen;
+            self.seen += 1;
+            if Some(me) == self.fault_k {
+                self.hit = true;
+                return sysx::Decision::Force(-(libc::EINTR as i64));
+            }
+        }
+        sysx::Decision::Pass
+    }
+}
+
+/// "running" | "zombie" (terminated, reapable) | "gone" (no such child: reaped)
+unsafe fn child_state(pid: i32) -> &'static str {
+    let mut info: libc::siginfo_t = std::mem::zeroed();
+    loop {
+        let r = libc::waitid(libc::P_PID, pid as libc::id_t, &mut info, libc::WEXITED | libc::WNOHANG | libc::WNOWAIT);
+        if r < 0 {
+            match *libc::__errno_location() {
+                libc::EINTR => continue,
+                libc::ECHILD => return "gone",
+                _ => return "error",
+            }
+        }
+        return if info.si_pid() == 0 { "running" } else { "zombie" };
+    }
+}
+
+fn err_json(e: &tiny_std::Error) -> Value {
+    match e {
+        tiny_std::Error::Os { msg, code } => json!({"kind": "os", "code": code.raw(), "msg": msg}),
+        tiny_std::Error::Uncategorized(m) => json!({"kind": "uncategorized", "msg": m}),
+        tiny_std::Error::Timeout => json!({"kind": "timeout"}),
+    }
+}
+
+/// Runs in P (never returns).
+fn exec_waitseq(ctx: &Ctx, sdir: &str, shm: *mut Shm, case: &WsCase) -> ! {
+    unsafe {
+        libc::setpgid(0, 0);
+        libc::alarm(CASE_ALARM);
+        let f = |n: &str| format!("{sdir}/{n}");
+        write_file(&f("in0"), PARENT_STDIN);
+        write_file(&f("out1"), b"");
+        write_file(&f("err2"), b"");
+        write_file(&f("report"), b"");
+        let ok = open_at_fd(&f("in0"), libc::O_RDONLY, 0)
+            && open_at_fd(&f("out1"), libc::O_WRONLY, 1)
+            && open_at_fd(&f("err2"), libc::O_WRONLY, 2)
+            && open_at_fd(&f("report"), libc::O_WRONLY, REPORT_FD);
+        if !ok {
+            finish(shm, &json!({"machinery": "could not set up P's descriptors"}));
+        }
+        let bin_b = nul(ctx.helper.as_bytes());
+        let status_arg = nul(match case.status.as_str() {
+            "exit7" => b"--exit=7".as_slice(),
+            "exit0" => b"--exit=0".as_slice(),
+            _ => b"--kill=9".as_slice(),
+        });
+        let linger_arg = nul(format!("--linger={LINGER_MS}").as_bytes());
+        let mut cmd = Command::new(UnixStr::try_from_bytes(&bin_b).expect("bin")).expect("Command::new");
+        cmd.arg(UnixStr::try_from_bytes(&status_arg).expect("arg"));
+        if case.mode == "R" {
+            cmd.arg(UnixStr::try_from_bytes(&linger_arg).expect("arg"));
+        }
+        cmd.stdin(Stdio::MakePipe);
+        // the spawn itself is not the subject here: no seam
+        let mut child = match catch(|| cmd.spawn()) {
+            Ok(Ok(c)) => c,
+            Ok(Err(e)) => finish(shm, &json!({"machinery": format!("spawn of the controlled child failed: {e}")})),
+            Err(p) => finish(shm, &json!({"machinery": format!("spawn of the controlled child panicked: {p}")})),
+        };
+        let pid = child.get_pid();
+        // the harness, not `Child`, decides when the child's stdin reaches EOF
+        let mut hold = child.stdin.take();
+        if hold.is_none() {
+            finish(shm, &json!({"machinery": "Child.stdin is None although stdin = MakePipe"}));
+        }
+        let mut plan = WaitPlan { fault_k: case.fault_k, seen: 0, hit: false };
+        let mut recs: Vec<Value> = Vec::new();
+        for op in &case.seq {
+            let seen_before = plan.seen;
+            let hit_before = plan.hit;
+            let mut rec = json!({"op": op});
+            match op.as_str() {
+                "X" => {
+                    drop(hold.take());
+                    if case.mode == "X" {
+                        let mut info: libc::siginfo_t = std::mem::zeroed();
+                        loop {
+                            let r = libc::waitid(libc::P_PID, pid as libc::id_t, &mut info, libc::WEXITED | libc::WNOWAIT);
+                            if r < 0 && *libc::__errno_location() == libc::EINTR {
+                                continue;
+                            }
+                            rec["waitid"] = if r < 0 { json!({"errno": *libc::__errno_location()}) } else { json!({"code": info.si_code, "status": info.si_status()}) };
+                            break;
+                        }
+                    }
+                }
+                "TW" => {
+                    rec["result"] = match catch(|| sysx::run(&mut plan, || child.try_wait()).0) {
+                        Ok(Ok(None)) => json!({"none": true}),
+                        Ok(Ok(Some(s))) => json!({"status": s}),
+                        Ok(Err(e)) => json!({"err": err_json(&e)}),
+                        Err(p) => json!({"panic": p}),
+                    };
+                }
+                _ => {
+                    rec["result"] = match catch(|| sysx::run(&mut plan, || child.wait()).0) {
+                        Ok(Ok(s)) => json!({"status": s}),
+                        Ok(Err(e)) => json!({"err": err_json(&e)}),
+                        Err(p) => json!({"panic": p}),
+                    };
+                }
+            }
+            rec["state_after"] = json!(child_state(pid));
+            rec["wait4_calls"] = json!(plan.seen - seen_before);
+            rec["fault_here"] = json!(plan.hit && !hit_before);
+            recs.push(rec);
+        }
+        // clean up: release, let it end, reap whatever the API left
+        drop(hold.take());
+        let final_state = child_state(pid);
+        let mut st = 0;
+        let reaped_by_harness = loop {
+            let r = libc::waitpid(pid, &mut st, 0);
+            if r < 0 && *libc::__errno_location() == libc::EINTR {
+                continue;
+            }
+            break r == pid;
+        };
+        let dump = read_file(&f("report"));
+        let obs = json!({
+            "pid": pid, "recs": recs, "state_before_cleanup": final_state, "reaped_by_harness": reaped_by_harness, "real_status": if reaped_by_harness { json!(st) } else { Value::Null },
+            "fault_hit": plan.hit, "wait4_total": plan.seen, "program_ran": !dump.is_empty(),
+        });
+        finish(shm, &obs);
+    }
+}
+
+fn judge_waitseq(case: &WsCase, res: &Result<Value, String>, r: &mut Report) {
+    let rp = case.to_json();
+    let what = format!("[{}] on a child that ends with {} (release mode {}{})", case.seq.join(" "), case.status, case.mode, case.fault_k.map(|k| format!(", wait4 #{k} answers EINTR")).unwrap_or_default());
+    let obs = match res {
+        Ok(o) => o,
+        Err(e) if e == "hang" => {
+            r.outcome("hang");
+            r.violation("C13:waitseq:hang", format!("{what}: no result within {CASE_ALARM}s"), rp);
+            return;
+        }
+        Err(e) if e == "skipped" => {
+            if r.caps_hit.is_empty() {
+                r.cap(format!("{MAX_HANGS} cases hung; the remaining cases of the run were skipped"));
+            }
+            r.outcome("skipped-after-hangs");
+            return;
+        }
+        Err(e) => {
+            r.cap(format!("{e} (case {rp})"));
+            r.notes.push("machinery-failure".into());
+            return;
+        }
+    };
+    if case.fault_k.is_some() && obs["fault_hit"] != true {
+        r.cap(format!("planned EINTR not applied in {rp}"));
+        return;
+    }
+    let accepted = case.accepted();
+    let strict = case.mode == "X";
+    let mut released = false;
+    let mut got: Option<i64> = None; // the status the API has reported so far
+    let mut flagged: HashSet<&'static str> = HashSet::new();
+    let mut viol = |r: &mut Report, key: &'static str, desc: String| {
+        if flagged.insert(key) {
+            r.violation(key, desc, rp.clone());
+        }
+    };
+    for (i, rec) in obs["recs"].as_array().cloned().unwrap_or_default().iter().enumerate() {
+        let op = rec["op"].as_str().unwrap_or("?");
+        let state = rec["state_after"].as_str().unwrap_or("?");
+        let at = format!("{what}: step {i} ({op})");
+        if op == "X" {
+            released = true;
+            if strict {
+                // cross-check of the set-up: the child ended the way it was told to
+                let (code, st) = (rec["waitid"]["code"].as_i64(), rec["waitid"]["status"].as_i64());
+                let fine = match case.status.as_str() {
+                    "exit7" => code == Some(libc::CLD_EXITED as i64) && st == Some(7),
+                    "exit0" => code == Some(libc::CLD_EXITED as i64) && st == Some(0),
+                    _ => code == Some(libc::CLD_KILLED as i64) && st == Some(libc::SIGKILL as i64),
+                };
+                if !fine && got.is_none() {
+                    r.cap(format!("{at}: the controlled child did not end as told: {}", rec["waitid"]));
+                    r.notes.push("machinery-failure".into());
+                    return;
+                }
+            }
+            continue;
+        }
+        let res = &rec["result"];
+        if !res["panic"].is_null() {
+            r.outcome("panic");
+            viol(r, "C13:waitseq:panic", format!("{at} panicked: {}", res["panic"]));
+            return;
+        }
+        if !released && state != "running" && got.is_none() {
+            r.cap(format!("{at}: the controlled child ended before it was released (state {state})"));
+            r.notes.push("machinery-failure".into());
+            return;
+        }
+        if !res["err"].is_null() {
+            // an interrupted wait4 may be surfaced; nothing else may fail
+            if rec["fault_here"] == true && res["err"]["code"].as_i64() == Some(libc::EINTR as i64) {
+                r.outcome("eintr-surfaced");
+            } else {
+                viol(r, "C13:wait:wrong-status", format!("{at} returned {}", res["err"]));
+            }
+        } else if res["none"] == true {
+            // only try_wait
+            if let Some(g) = got {
+                viol(r, "C13:wait:status-changes-between-calls", format!("{at} returned None after status {g} had been reported"));
+            } else if released && strict {
+                viol(r, "C13:try_wait:none-after-exit", format!("{at} returned None although the child had terminated (state after: {state})"));
+            } else {
+                r.outcome(if released { "try_wait-none-while-lingering" } else { "try_wait-none-while-running" });
+            }
+        } else if let Some(s) = res["status"].as_i64() {
+            if !released {
+                viol(r, "C13:try_wait:some-while-running", format!("{at} returned Some({s}) while the child was blocked on its stdin"));
+            } else {
+                if state == "running" {
+                    let key = if op == "W" { "C13:wait:returned-before-exit" } else { "C13:try_wait:some-while-running" };
+                    viol(r, key, format!("{at} returned {s} while the child was still running"));
+                }
+                if !accepted.contains(&s) {
+                    viol(r, "C13:wait:wrong-status", format!("{at} returned {s}; the child's end is {} (accepted values {accepted:?})", case.status));
+                }
+            }
+            match got {
+                Some(g) if g != s => viol(r, "C13:wait:status-changes-between-calls", format!("{at} returned {s}, an earlier call returned {g}")),
+                _ => {}
+            }
+            got = Some(s);
+            r.outcome(match (op, accepted.first() == Some(&s)) {
+                ("W", true) => "wait-raw-status",
+                ("W", false) => "wait-other-value",
+                (_, true) => "try_wait-some-raw-status",
+                _ => "try_wait-some-other-value",
+            });
+        }
+        // once a status has been reported the child must have been reaped
+        if got.is_some() && state == "zombie" {
+            viol(r, "C13:wait:child-not-reaped", format!("{at}: a status has been reported but the child is still an unreaped zombie"));
+        }
+    }
+    // (a child still running at the end was never released: reporting a status for it is flagged above)
+    if got.is_some() && obs["state_before_cleanup"] == "zombie" {
+        viol(r, "C13:wait:child-not-reaped", format!("{what}: at the end the child is {} (waitpid by the harness reaped it: {})", obs["state_before_cleanup"], obs["reaped_by_harness"]));
+    }
+    r.outcome(match (got.is_some(), obs["state_before_cleanup"].as_str()) {
+        (true, Some("gone")) => "end-reported-and-reaped",
+        (true, _) => "end-reported-not-reaped",
+        (false, _) => "end-never-reported",
+    });
+}
+
+fn ws_sequences(max_len: usize) -> Vec<Vec<String>> {
+    let mut out = Vec::new();
+    for_each_seq(3, max_len, |ix| {
+        if ix.is_empty() {
+            return;
+        }
+        let s: Vec<&str> = ix.iter().map(|&i| ["TW", "W", "X"][i]).collect();
+        // one release; a W before it would block for ever
+        let xs = s.iter().filter(|&&o| o == "X").count();
+        let first_x = s.iter().position(|&o| o == "X").unwrap_or(s.len());
+        if xs > 1 || s[..first_x].contains(&"W") {
+            return;
+        }
+        out.push(s.into_iter().map(String::from).collect());
+    });
+    out
+}
+
+fn waitseq(args: &Args) -> Report {
+    let t0 = now();
+    let ctx = make_ctx(args.thorough);
+    let max_len = if args.thorough { 6 } else { 4 };
+    let seqs = ws_sequences(max_len);
+    let mut groups: Vec<(Vec<String>, String, String)> = Vec::new();
+    for s in &seqs {
+        for st in ["exit7", "exit0", "kill9"] {
+            for mode in ["X", "R"] {
+                if mode == "R" && !s.contains(&"X".to_string()) {
+                    continue; // without a release both modes are the same case
+                }
+                groups.push((s.clone(), st.into(), mode.into()));
+            }
+        }
+    }
+    let n_groups = groups.len();
+    let per = (n_groups / (3 * n_workers()).max(1)).max(4);
+    let thorough = args.thorough;
+    let mut items = Vec::new();
+    for (i, chunk) in groups.chunks(per).enumerate() {
+        let ctx = ctx.clone();
+        let chunk = chunk.to_vec();
+        items.push(isolated(format!("w{i}"), move || {
+            let mut r = Report::new();
+            let sh = Shard::new(&ctx, &format!("w{i}"));
+            for (seq, status, mode) in &chunk {
+                let mut case = WsCase { seq: seq.clone(), status: status.clone(), mode: mode.clone(), fault_k: None };
+                let mut n_wait4 = 0;
+                let mut k = None;
+                loop {
+                    case.fault_k = k;
+                    set_case(&case.to_json().to_string());
+                    r.eval();
+                    let res = sh.run_p(|| exec_waitseq(&sh.ctx, &sh.sdir, sh.shm, &case));
+                    if !skipped(&res) {
+                        r.nontrivial_unique();
+                    }
+                    judge_waitseq(&case, &res, &mut r);
+                    if k.is_none() {
+                        n_wait4 = res.as_ref().ok().and_then(|o| o["wait4_total"].as_u64()).unwrap_or(0) as usize;
+                        if r.samples.len() < 3 {
+                            if let Ok(o) = &res {
+                                r.sample(json!({"case": case.to_json(), "steps": o["recs"]}));
+                            }
+                        }
+                    }
+                    // EINTR on the first wait4 call (thorough: on each one)
+                    let next = k.map(|x| x + 1).unwrap_or(0);
+                    if next >= n_wait4 || (!thorough && next >= 1) {
+                        break;
+                    }
+                    k = Some(next);
+                }
+            }
+            clear_case();
+            r
+        }));
+    }
+    let mut r = run_isolated(items, &args.out, "C13");
+    let _ = std::fs::remove_dir_all(&ctx.root);
+    r.rule = "all sequences of 1..=L letters over {TW = try_wait, W = wait, X = release the child} with one release at most and no W before it, on a child that reads its stdin pipe (whose parent end the harness holds) to EOF and then ends as told; x the child's end {exit 7, exit 0, SIGKILL} x release mode {X: close + waitid(WNOWAIT) until terminated, R: close only, the program lingers} x {no fault, EINTR on the k-th wait4 call}. Reference: before the release try_wait = None and nothing is reaped; after it the first W/TW reports the child's real status and reaps, every later call repeats it. Each case is generated once and really executes the sequence (non-trivial).".into();
+    r.bound("tier", if args.thorough { "thorough" } else { "quick" });
+    r.bound("tiny_std_start_feature", WITH_START);
+    r.bound("max_sequence_length", max_len as u64);
+    r.bound("sequences", seqs.len() as u64);
+    r.bound("sequence_x_status_x_mode", n_groups as u64);
+    r.bound("wait4_faults", if args.thorough { "EINTR on each wait4 call of the sequence, one at a time" } else { "EINTR on the first wait4 call" });
+    r.bound("linger_ms", LINGER_MS as u64);
+    r.bound("wall_s", (t0.elapsed().as_millis() as u64) as f64 / 1000.0);
+    r.note("Process::wait / try_wait have no cfg(feature = \"start\") difference: one build decides this phase");
+    r.note("a W that returns early in release mode R is only caught while the program still lingers (60 ms): a miss is possible under extreme load, a false alarm is not");
+    r
+}
+
+fn replay_waitseq(v: &Value) -> Report {
+    let ctx = make_ctx(true);
+    let case = WsCase::from_json(v);
+    let sh = Shard::new(&ctx, "replay");
+    let mut r = Report::new();
+    let res = sh.run_p(|| exec_waitseq(&sh.ctx, &sh.sdir, sh.shm, &case));
+    judge_waitseq(&case, &res, &mut r);
+    let _ = std::fs::remove_dir_all(&ctx.root);
+    match &res {
+        Ok(o) => println!("observation: {}", serde_json::to_string_pretty(o).unwrap()),
+        Err(e) => println!("no observation: {e}"),
+    }
+    r
+}
+
 fn replay(v: &Value) -> Report {
+    if v["op"] == "waitseq" {
+        return replay_waitseq(v);
+    }
     let ctx = make_ctx(true);
     let cfg = Config::from_json(&v["cfg"]);
     let faults: Vec<Fault> = v["faults"].as_array().map(|a| a.iter().map(Fault::from_json).collect()).unwrap_or_default();
@@ -1567,6 +2001,7 @@ pub fn main() {
     let phase = args.phase.clone().unwrap_or_else(|| if WITH_START { "c13-start".into() } else { "c13".into() });
     let r = match (phase.as_str(), WITH_START) {
         ("c13", false) | ("c13-start", true) => c13(&args),
+        ("waitseq", _) => waitseq(&args),
         ("c13", true) | ("c13-start", false) => {
             let mut r = Report::new();
             r.cap(format!("phase {phase} needs the {} build of h-spawn (this binary: with-start = {WITH_START})", if WITH_START { "plain" } else { "--features with-start (bin h-spawn-start)" }));
